@@ -225,6 +225,7 @@ type Exec struct {
 	globalsSeen     map[string]*Term
 	epoch           int
 	usePow2         bool
+	usedLemmas      map[string]bool
 	defFacts        map[*Term]bool
 	entry           map[string]Value
 	qn              int
@@ -245,7 +246,7 @@ func NewExec(prog *Program, db *ContractDB, fn *ssa.Function, c *Contract, cfg s
 		typeIDs: map[string]int64{}, typeByID: map[int64]types.Type{}, loopCache: map[*ssa.Function][]*Loop{},
 		ordCache: map[*ssa.Function]map[ssa.Instruction]string{}, callOrd: map[*ssa.Function]map[ssa.Instruction]callName{},
 		maxPaths: 4096, trusted: map[string]bool{}, havocked: map[string]bool{}, inlined: map[string]bool{}, notes: map[string]bool{},
-		unrollBudget: 300, cfgVals: map[string]int64{}, globalsSeen: map[string]*Term{}, useBitAxioms: map[string]bool{}, usedSpecFns: map[string]bool{}, defFacts: map[*Term]bool{}}
+		unrollBudget: 300, cfgVals: map[string]int64{}, globalsSeen: map[string]*Term{}, usedLemmas: map[string]bool{}, useBitAxioms: map[string]bool{}, usedSpecFns: map[string]bool{}, defFacts: map[*Term]bool{}}
 	if c != nil && c.Mode == "bits" {
 		x.mode = ModeBits
 	}
@@ -651,8 +652,22 @@ func (x *Exec) enterBlock(st *State, b *ssa.BasicBlock) bool {
 	rec := x.dryRunLoop(st, loop, spec, phis)
 	x.havocLoop(st, fr, loop, phis, rec)
 	ctx = x.specCtx(st, fr)
+	var invs []*Term
 	for _, inv := range spec.Invariants {
-		st.assume(x.evalBool(ctx, inv))
+		invs = append(invs, x.evalBool(ctx, inv))
+	}
+	for _, t := range invs {
+		st.assume(t)
+	}
+	// literal bounds on the loop's own (fresh) variables hold wherever those variables exist
+	fresh := map[*Term]bool{}
+	for _, p := range phis {
+		if t, ok := fr.env[p].(*Term); ok && t.Op == "const" {
+			fresh[t] = true
+		}
+	}
+	for _, t := range invs {
+		x.learnBoundsOf(t, fresh)
 	}
 	al := &activeLoop{}
 	if spec.Decreases != nil {
